@@ -30,6 +30,7 @@ import (
 	"context"
 	"encoding/binary"
 	"errors"
+	"fmt"
 	"io"
 	"io/ioutil"
 	"mime/multipart"
@@ -435,6 +436,11 @@ func (c *FCGIClient) Request(p map[string]string, req io.Reader) (resp *http.Res
 		statusParts := strings.SplitN(resp.Header.Get("Status"), " ", 2)
 		resp.StatusCode, err = strconv.Atoi(statusParts[0])
 		if err != nil {
+			return
+		}
+		if resp.StatusCode < 100 || resp.StatusCode > 999 {
+			// not an HTTP status code: http.ResponseWriter.WriteHeader would panic
+			err = fmt.Errorf("fastcgi: invalid status code %q from upstream", statusParts[0])
 			return
 		}
 		if len(statusParts) > 1 {
